@@ -15,11 +15,11 @@ SPEC = dict(
           "filters. In exact arithmetic the grid has floor((max-min)/step + 1e-9)+1 points min+i*step, so both end points are included "
           "whenever (max-min)/step is whole; a profile pH is printed iff it lies in the window and on the lattice window_min + k*delta. "
           "Float instances of all definitions are compared with the real code; the linkage is also checked by numerical "
-          "differentiation of the real calculate_folding_energy, and the printed rows are parsed from the .pka text.",
+          "differentiation of the real calculate_folding_energy, and the printed rows are parsed from the .pka text. The folding-energy and charge sections of the .pka file are part of the output model on top of Program.run (Model/Output.lean: profile on the grid of the options, window lattice in exact thousandths, optimum, ranges, pI); the program-level correspondence of this check compares them character by character with the real sections, under -g / -w.",
     note="Theorems over R/Q/Int; rounding is not modelled, so grids are also compared with the exact-arithmetic count (this is what "
          "found the dropped end point). Folding rows are compared on pH values rounded to 0.001 as the code does.",
     technique="Lean 4/Mathlib proof (HasDerivAt, induction over groups; order lemmas; integer floor-division lemmas) + bitwise Float correspondence + exact-arithmetic grid comparison",
-    lean=["Propka.Props.C10"],
+    lean=["Propka.Props.C10", "Propka.Props.Program"],
     rule="real runs (test files, library fragments) x user grids (-g) x windows (-w) x both reference states; make_grid on 12 fixed and "
          "random decimal (min, max, step) triples; non-trivial = distinct (structure, grid, window) with a titratable group",
     assumptions=["IEEE rounding not modelled; grid/window values are decimals with at most 3 places"],
@@ -120,7 +120,7 @@ def run(ctx):
     lbad, obad, rbad = [], [], []
     freqs, freals, preqs, preals = [], [], [], []
     for name, text in inputs:
-        grid = rnd.choice(GRIDS[:7] + [GRIDS[8], GRIDS[11]])
+        grid = rnd.choice(GRIDS[:7] + [GRIDS[8], GRIDS[11], GRIDS[12], (3.9, 4.1, 0.005), (0.0, 1.0, 0.125)])
         window = rnd.choice(WINDOWS)
         args = ["-g"] + [repr(x) for x in grid] + ["-w"] + [repr(x) for x in window]
         o = observe.run(text, args, want_text=True)
@@ -170,6 +170,22 @@ def run(ctx):
                     probs.append("stability range %r" % (stab,))
                 if opt[1] < 0 and not (stab[0] <= opt[0] <= stab[1]):
                     probs.append("optimum pH outside the stability range")
+            # "the pH values at which profiles are computed ... are exactly those of the requested grid": both reported profiles
+            # sit on the lattice min + i*step, and the charges reported for a pH are the charges at that pH
+            lattice = [grid[0] + i * grid[2] for i in range(exact_steps(*grid) + 1)]
+            cprof = mol.get_charge_profile(conformation='AVR', grid=grid)
+            if [p[0] for p in prof] != lattice:
+                probs.append("folding profile pH values %r are not the grid %r" % ([p[0] for p in prof][:4], lattice[:4]))
+            if [c[0] for c in cprof] != lattice:
+                k = next((i for i, (a, b) in enumerate(zip([c[0] for c in cprof], lattice)) if a != b), min(len(cprof), len(lattice)))
+                probs.append("charge profile pH values are not the grid: point %d is %r, the grid has %r (%d points, grid %d)" % (
+                    k, cprof[k][0] if k < len(cprof) else None, lattice[k] if k < len(lattice) else None, len(cprof), len(lattice)))
+            else:
+                for c in cprof[:: max(1, len(cprof) // 7)]:
+                    qu, qf = conf.calculate_charge(mol.version.parameters, ph=c[0])
+                    if abs(c[1] - qu) > 1e-12 or abs(c[2] - qf) > 1e-12:
+                        probs.append("charge profile at pH %r reports %r / %r, the charges there are %r / %r" % (c[0], c[1], c[2], qu, qf))
+                        break
             if len(prof) != exact_steps(*grid) + 1:
                 probs.append("profile has %d points, grid %r has %d" % (len(prof), grid, exact_steps(*grid) + 1))
             if probs:
